@@ -357,9 +357,64 @@ def tail_if_else_to_guard(fn):
     return 1
 
 
+def self_field_locals(fn):
+    """in a `&self` method, a local that only names a field of self — `let Self { a, b: c, .. } = self;`, `let x = &self.f;`
+    — is read as that field wherever it is used as a value: `x.get(k)` is `self.f.get(k)`.  (The binding itself stays, so
+    that format-string placeholders still resolve through it.)  Only for names bound exactly once in the function."""
+    ins = fn.get("inputs") or []
+    if not ins or not ins[0].get("self") or not ins[0].get("ref") or ins[0].get("mut"):
+        return 0
+    body = fn.get("body")
+    if not isinstance(body, dict):
+        return 0
+    alias = {}
+    keep = set()
+    for st in body.get("stmts", []):
+        if st.get("k") != "Let" or st.get("init") is None:
+            continue
+        pat, init = st["pat"], st["init"]
+        if pat.get("k") == "PStruct" and ident_of(init) == "self":
+            for fl in pat["fields"]:
+                p2 = fl["pat"]
+                if p2.get("k") == "PIdent" and not p2.get("mut") and isinstance(fl.get("member"), str):
+                    alias[p2["name"]] = fl["member"].strip()
+                    keep.add(id(p2))
+        elif pat.get("k") == "PIdent" and not pat.get("mut"):
+            cur = init
+            if cur.get("k") == "Ref" and not cur.get("mut"):
+                cur = cur["expr"]
+            if cur.get("k") == "Field" and ident_of(cur.get("base")) == "self" and isinstance(cur.get("member"), str):
+                alias[pat["name"]] = cur["member"].strip()
+                keep.add(id(pat))
+    if not alias:
+        return 0
+    # names bound anywhere else in the function (parameters, closures, other lets, match arms) are left alone
+    for p in walk(fn):
+        if p.get("k") == "PIdent" and id(p) not in keep and p.get("name") in alias:
+            del alias[p["name"]]
+    for i in ins[1:]:
+        if "pat" in i and i["pat"].get("k") == "PIdent":
+            alias.pop(i["pat"]["name"], None)
+    if not alias:
+        return 0
+    n = 0
+    for p in list(walk(body)):
+        if p.get("k") == "Path" and not p.get("qself") and isinstance(p.get("path"), dict) and len(p["path"]["segs"]) == 1 and p["path"]["segs"][0] in alias and not p.get("synthetic_self"):
+            member = alias[p["path"]["segs"][0]]
+            base = _mk("Path", p, path={"segs": ["self"], "src": "self", "leading_colon": False}, qself=False)
+            base["synthetic_self"] = True
+            p.clear()
+            p.update(_mk("Field", base, base=base, member=member))
+            n += 1
+    return n
+
+
 def normalise(tree):
     """apply to every statement list below `tree`"""
     n = 0
+    for p in list(walk(tree)):
+        if isinstance(p, dict) and p.get("k") == "Fn" and isinstance(p.get("body"), dict):
+            n += self_field_locals(p)
     for p in list(walk(tree)):
         if isinstance(p, dict) and p.get("k") == "Fn" and isinstance(p.get("body"), dict):
             n += tail_if_else_to_guard(p)
@@ -372,4 +427,79 @@ def normalise(tree):
     for p in list(walk(tree)):
         if isinstance(p, dict) and isinstance(p.get("stmts"), list) and p.get("k") in ("Block",):
             n += normalise_block(p)
+    return n
+
+
+def inline_single_use_methods(files):
+    """`let x = self.h(a, b);` where the private `&self` method h of the same file family is called exactly once in it,
+    has no `return` and does not call itself, is read with h's body in place of the call (parameters bound by `let`
+    where the argument is not the parameter's own name) and h removed — extracting a helper and not extracting it read
+    the same.  `files`: the file nodes of one family (a file and its child modules)."""
+    methods = {}
+    holders = {}
+    all_fns = []
+    for f in files:
+        stack = list(f.get("items", []))
+        while stack:
+            it = stack.pop()
+            if it.get("k") == "Impl" and it.get("trait") is None:
+                for sub in it.get("items", []):
+                    if sub.get("k") == "Fn":
+                        all_fns.append(sub)
+                        ins = sub.get("inputs") or []
+                        if ins and ins[0].get("self") and ins[0].get("ref") and not ins[0].get("mut") and str(sub.get("vis", "")).strip() == "":
+                            if sub["name"] in methods:
+                                methods[sub["name"]] = None  # ambiguous name
+                            else:
+                                methods[sub["name"]] = sub
+                                holders[sub["name"]] = it
+            elif it.get("k") == "Fn":
+                all_fns.append(it)
+            elif it.get("k") == "Mod" and it.get("items") and not any("cfg" in a and "test" in a for a in it.get("attrs", [])):
+                stack.extend(it["items"])
+    calls = {}
+    for fn in all_fns:
+        for m in nodes(fn.get("body") or {}, "MethodCall"):
+            if ident_of(m.get("recv")) == "self" and methods.get(m["method"]) is not None:
+                calls.setdefault(m["method"], []).append((fn, m))
+        # a method referenced by path (`Self::h`, passed as a function) is not a plain call: leave it alone
+        for p_ in nodes(fn.get("body") or {}, "Path"):
+            segs = p_["path"]["segs"]
+            if len(segs) == 2 and segs[0] == "Self" and segs[1] in methods:
+                methods[segs[1]] = None
+    n = 0
+    for name, sites in calls.items():
+        h = methods.get(name)
+        if h is None or len(sites) != 1:
+            continue
+        caller, call = sites[0]
+        if caller is h or nodes(h["body"], "Return") or any(ident_of(m.get("recv")) == "self" and m["method"] == name for m in nodes(h["body"], "MethodCall")):
+            continue
+        params = [i for i in h["inputs"][1:]]
+        if len(params) != len(call["args"]) or any("pat" not in i or i["pat"].get("k") != "PIdent" for i in params):
+            continue
+        # the call must be the whole initialiser of a top-level `let` of the caller (or its tail expression)
+        host = None
+        for st in caller["body"]["stmts"]:
+            if st.get("k") == "Let" and st.get("init") is call:
+                host = ("init", st)
+            elif st.get("k") == "ExprStmt" and st.get("expr") is call and not st.get("semi"):
+                host = ("expr", st)
+        if host is None:
+            continue
+        lets = []
+        for i, a in zip(params, call["args"]):
+            pn = i["pat"]["name"]
+            a0 = a["expr"] if a.get("k") == "Ref" and not a.get("mut") else a
+            if ident_of(a0) == pn:
+                continue
+            lets.append(_mk("Let", a, pat=i["pat"], attrs=[], init=a))
+        stmts = h["body"]["stmts"]
+        if not lets and len(stmts) == 1 and stmts[0].get("k") == "ExprStmt" and not stmts[0].get("semi"):
+            new = stmts[0]["expr"]
+        else:
+            new = _mk("BlockExpr", call, block=_mk("Block", call, stmts=lets + list(stmts)), label=False)
+        host[1][host[0]] = new
+        holders[name]["items"] = [x for x in holders[name]["items"] if x is not h]
+        n += 1
     return n
